@@ -18,7 +18,7 @@ PROP = 'C08'
 ENGINE = 'journal'
 LEVEL = 'fault_enumeration'
 INVARIANTS = ('list_mismatch', 'op_exception', 'reopen_mismatch', 'reopen_failed', 'kill_not_contiguous',
-              'kill_lost_kept_entries', 'kill_partial_append', 'kill_bad_commit_index')
+              'kill_lost_kept_entries', 'kill_partial_append', 'kill_bad_commit_index', 'recovered_journal_broken')
 for _i in INVARIANTS:
     INV_PROP[_i] = PROP
 RULE = ('one case = one seeded sequence of journal operations (add of 0 .. 4x the current file size incl. sizes adjacent to '
@@ -73,7 +73,36 @@ def recover(image):
         j = open_journal()
         ents = entries_of(j)
         ci = j.getRaftCommitIndex()
-        return ents, ci
+        # the recovered journal is a journal: the process that restarts on this image goes on appending and
+        # trimming (whatever the kill left behind - a temporary file of an interrupted trim, a stale header)
+        broken = None
+        try:
+            model = list(ents)
+            nxt = (model[-1][1] + 1) if model else 1
+            for step in range(3):
+                e = (bytes([65 + step]) * (5 + 40 * step), nxt, 3)
+                nxt += 1
+                j.add(*e)
+                model.append(e)
+                if step == 0 and len(model) > 1:
+                    j.deleteEntriesTo(len(model) // 2)
+                    model = model[len(model) // 2:]
+                if step == 1 and len(model) > 2:
+                    j.deleteEntriesFrom(len(model) - 1)
+                    del model[len(model) - 1:]
+                if entries_of(j) != model:
+                    broken = 'after step %d of the follow-up (add, trim head, add, drop tail, add) the journal holds %d entries, the list %d' % (step, len(j), len(model))
+                    break
+            if broken is None:
+                j._destroy()
+                j2 = open_journal()
+                if entries_of(j2) != model:
+                    broken = 'after the follow-up and a close+reopen the journal holds %d entries, the list %d' % (len(j2), len(model))
+        except HarnessError:
+            raise
+        except Exception as e:
+            broken = 'the follow-up (add, trim head, add, drop tail, add, reopen) raised %r' % (e,)
+        return ents, ci, broken
     finally:
         host.fs = saved
 
@@ -169,7 +198,7 @@ def execute(seed, cfg, ops, enumerate_kills=True):
             in_delete_or_growth += 1
         opno = cur['opno']
         try:
-            ents, ci = recover(image)
+            ents, ci, broken = recover(image)
         except HarnessError:
             raise
         except Exception as e:
@@ -195,6 +224,9 @@ def execute(seed, cfg, ops, enumerate_kills=True):
         if ci not in commits_set:
             flag('kill_bad_commit_index', 'after a kill %s primitive op #%d of %r the stored commit index is %r, never set (set: %r)' % (
                 when, cur['k'], cur['op'], ci, sorted(commits_set)[:10]), opno)
+        if broken:
+            flag('recovered_journal_broken', 'after a kill %s primitive op #%d of %r the journal reopens, but %s' % (when, cur['k'], cur['op'], broken), opno,
+                 dict(op=cur['op'], prim=cur.get('prim')))
 
     def hook_before(kind, path, fn, torn):
         # called by the FS wrapper below for every primitive op
